@@ -35,6 +35,18 @@ var solvers = []SolverCfg{
 	}, Pre: "(set-logic ALL)\n"},
 }
 
+// seedArgs: development only (GOVC_SEED=n): run the z3 back ends with another random seed to look for unstable
+// obligations; registered checks always use the solvers' default seed, so that a run is reproducible
+func seedArgs(argv []string) []string {
+	sd := os.Getenv("GOVC_SEED")
+	if sd == "" || !strings.HasPrefix(argv[0], "z3") {
+		return argv
+	}
+	out := append([]string{}, argv[:len(argv)-1]...)
+	out = append(out, "smt.random_seed="+sd, "sat.random_seed="+sd, argv[len(argv)-1])
+	return out
+}
+
 var oblRe = regexp.MustCompile(`^"?OBL (\d+) `)
 
 // runScript runs one solver on a path script, returns per-seq answers.
@@ -45,7 +57,7 @@ func runScript(sv SolverCfg, file string, perQueryMs int, nobl int) (map[int]str
 func runScriptCtx(parent context.Context, sv SolverCfg, file string, perQueryMs int, nobl int) (map[int]string, float64, error) {
 	ctx, cancel := context.WithTimeout(parent, time.Duration(perQueryMs*(nobl+2))*time.Millisecond+20*time.Second)
 	defer cancel()
-	argv := sv.Cmd(file, perQueryMs)
+	argv := seedArgs(sv.Cmd(file, perQueryMs))
 	cmd := exec.CommandContext(ctx, argv[0], argv[1:]...)
 	var out bytes.Buffer
 	cmd.Stdout = &out
